@@ -651,13 +651,39 @@ def run(pid, tier, replay=None):
                 if what:
                     v.violation(what, {"id": tid, "source": src, "expect": {"contract": True}, "build": label})
         if not replay and label == builds[0][0]:
+            # single calls as scripts of their own (the call is the deepest point of the script, so a native that calls
+            # back or raises has to grow the stack), plainly and under the dense schedule: identical reports
+            bodies = [c for c in built if c["verdict"] == "body"]
+            pick = random.Random(vlib.seed() * 5 + 9).sample(bodies, min(4000 if tier == "quick" else 60000, len(bodies)))
+            def single(c):
+                return "\n".join(c["imports"]) + "\n" + HEADER + f'try {{ {c["src"]}; print("ok"); }} catch e {{ print(e.message); }}\n'
+            plain = vlib.run_batch(binary, [{"id": f"o{j}", "files": {"/v/main.lay": single(c)}, "main": "/v/main.lay"} for j, c in enumerate(pick)], per_case_timeout=30)
+            dense = vlib.run_batch(binary, [{"id": f"o{j}", "files": {"/v/main.lay": single(c)}, "main": "/v/main.lay", "gc": {"every": 1, "force_full": True}}
+                                            for j, c in enumerate(pick)], per_case_timeout=30)
+            strip = lambda t: re.sub(r"0x[0-9a-f]+|\d{6,}(\.\d+)?", "?", t or "")
+            shown = collections.Counter()
+            for j, c in enumerate(pick):
+                a, b_ = plain[f"o{j}"], dense[f"o{j}"]
+                judged += 1
+                what = None
+                for name, r_ in (("", a), ("+gc", b_)):
+                    if r_.get("status") in ("panic", "crash", "hang", "timeout"):
+                        what = f"[{label}{name}] {c['src']} as a script of its own: host failure: {r_.get('status')} {str(r_.get('panic'))[:160]} signal={r_.get('signal')}"
+                if what is None and (a.get("status") != b_.get("status") or strip(a.get("stdout")) != strip(b_.get("stdout"))):
+                    what = (f"[{label}] {c['src']} as a script of its own: a collection at every allocation changes the report: "
+                            f"{strip(a.get('stdout'))[-140:]!r} becomes {strip(b_.get('stdout'))[-140:]!r}")
+                if what:
+                    shown[(c["owner"], c["name"])] += 1
+                    if shown[(c["owner"], c["name"])] <= 2:
+                        v.violation(what, {"call": c, "build": label, "source": single(c)})
+        if not replay and label == builds[0][0]:
             # accepted mutants, run plainly and under a collection at every allocation: no host failure in either
             # (a mutant may loop: a timeout is not judged)
-            muts = mutant_programs(binary, random.Random(vlib.seed() * 17 + 3), 9000 if tier == "quick" else 150000)
+            muts = mutant_programs(binary, random.Random(vlib.seed() * 17 + 3), 6000 if tier == "quick" else 150000)
             v.notes["accepted_mutants_run"] = len(muts)
             for extra_name, extra_opts in (("", {}), ("+gc", {"gc": {"every": 1, "force_full": True}})):
                 cases = [dict({"id": f"u{j}", "files": {"/v/main.lay": t}, "main": "/v/main.lay"}, **extra_opts) for j, (cid, t) in enumerate(muts)]
-                resm = vlib.run_batch(binary, cases, per_case_timeout=5)
+                resm = vlib.run_batch(binary, cases, per_case_timeout=3)
                 seen_sites = collections.Counter()
                 for j, (cid, t) in enumerate(muts):
                     r_ = resm[f"u{j}"]
